@@ -328,8 +328,7 @@ Section RA.
       + intros id' H. apply in_map_fst_aremove in H. tauto.
       + intros id' H Hn. apply in_map_fst_aremove. tauto.
       + intros [k v] H. apply In_aremove in H. tauto.
-    - do 6 (split; [reflexivity|]). split; [|split]; try tauto.
-      intros id' H. split; [exact H|congruence].
+    - do 6 (split; [reflexivity|]). split; [|split]; tauto.
   Qed.
 
   Lemma senders_eq s s' : calls s' = calls s -> handles s' = handles s -> senders s' = senders s.
@@ -378,7 +377,6 @@ Section RA.
       destruct (ra_ie0 sr Hsr) as [H|[H|[H|H]]]; [tauto| | |tauto].
       + right; left. rewrite H. reflexivity.
       + right; right; left. apply ended_rec_call, H.
-    - rewrite close_called_rec_call. exact ra_cc0.
   Qed.
 
   Lemma RA_mstep m e s s' :
@@ -426,7 +424,7 @@ Section RA.
       + rewrite Seg0 by reflexivity. exact R.
       + rewrite (Seg1 (CNext r)) by (rewrite H; reflexivity). cbn [mrun fold_left].
         eapply RA_xframe; [exact X|]. apply RA_rec_mono; [|discriminate|exact R].
-        destruct r; try reflexivity. exfalso. eapply H0; reflexivity.
+        destruct r; reflexivity.
     - (* skip a request whose caller is gone *)
       destruct (q_pop_fields _ _ _ H (sim_w _ _ S)) as (Q & C & Sn & F1 & F2 & F3 & F4 & F5 & F6 & _).
       rewrite Seg0; [|unfold slot_tx_drop, set_slot; cbn [plog upd_slots];
@@ -434,7 +432,7 @@ Section RA.
       cbn [mrun fold_left].
       eapply RA_shrink; [| | | | | | | | | | |exact R].
       + eapply calls_ok_trans; [exact C|apply calls_ok_eq; reflexivity].
-      + intro. rewrite (senders_eq (slot_tx_drop s1 (q_id q)) s1) by reflexivity. congruence.
+      + intro. rewrite (senders_eq s1 (slot_tx_drop s1 (q_id q))) by reflexivity. congruence.
       + rewrite Q. discriminate.
       + unfold slot_tx_drop, set_slot. cbn [cancels upd_slots]. rewrite F4. tauto.
       + unfold slot_tx_drop, set_slot. cbn [inflight upd_slots]. rewrite F1. tauto.
@@ -483,7 +481,7 @@ Section RA.
         destruct (cancels s) as [|y l]; [destruct (Nat.eqb _ _); discriminate|]. intros [= -> <-].
         cbn [inflight upd_cancels]. destruct (alookup id (inflight s)) eqn:Ea; [discriminate|].
         intros _. apply alookup_none_notin, Ea. }
-      rewrite E2. eapply RA_shrink; [apply calls_ok_eq; reflexivity|tauto|tauto|rewrite E1; discriminate
+      rewrite E2. apply (RA_shrink m s); [apply calls_ok_eq; reflexivity|tauto|tauto|rewrite E1; discriminate
                                     |tauto| |tauto|tauto|tauto|reflexivity|reflexivity|exact R].
       cbn [cancels inflight upd_cancels]. intros id' Hin Hif. rewrite E1 in Hin.
       destruct Hin as [<-|Hin]; [contradiction|exact Hin].
@@ -498,8 +496,9 @@ Section RA.
       pose proof (XFrame_do_send tp _ _ _ _ H1) as X. apply do_send_eq in H1.
       rewrite (Seg1 (CSend (MCancel id (if_tc e)) w)) by (rewrite H1, E2; reflexivity).
       cbn [mrun fold_left]. eapply RA_xframe; [exact X|].
-      rewrite E2. eapply RA_shrink; [apply calls_ok_eq; reflexivity|tauto|tauto|rewrite E1; discriminate
-                                    | | | | |tauto|reflexivity|reflexivity|apply RA_rec_cancel, R];
+      rewrite E2. apply (RA_shrink (rec_call m (CSend (MCancel id (if_tc e)) w)) s);
+        [apply calls_ok_eq; reflexivity|tauto|tauto|rewrite E1; discriminate
+        | | | | |tauto|reflexivity|reflexivity|apply RA_rec_cancel, R];
         cbn [cancels inflight timers upd_cancels upd_if].
       + intros id' Hin. apply in_map_fst_aremove in Hin. tauto.
       + intros id' Hin Hif. apply in_map_fst_aremove in Hif. rewrite E1 in Hin.
@@ -517,7 +516,7 @@ Section RA.
       cbn [inflight timers upd_if].
       destruct (alookup idx (inflight s)) as [e|] eqn:Ea; intros [= _ <-].
       + rewrite slot_send_alt. unfold set_slot.
-        eapply RA_shrink; [apply calls_ok_eq; reflexivity|tauto|tauto|tauto| | | | | |reflexivity|reflexivity|exact R];
+        apply (RA_shrink m s); [apply calls_ok_eq; reflexivity|tauto|tauto|tauto| | | | | |reflexivity|reflexivity|exact R];
           cbn [cancels inflight timers slots upd_slots upd_if].
         * intros id' Hid. apply in_map_fst_aremove in Hid. tauto.
         * tauto.
@@ -530,8 +529,467 @@ Section RA.
         * intros id' Hid. rewrite slotv_aset. destruct (N.eqb id' idx) eqn:E; [|exact Hid].
           apply N.eqb_eq in E; subst. unfold send_val. rewrite get_slot_slotv. cbn [slots upd_if].
           rewrite Hid. reflexivity.
-      + eapply RA_shrink; [apply calls_ok_eq; reflexivity|tauto|tauto|tauto|tauto|tauto|tauto| |tauto
+      + apply (RA_shrink m s); [apply calls_ok_eq; reflexivity|tauto|tauto|tauto|tauto|tauto|tauto| |tauto
                           |reflexivity|reflexivity|exact R].
         cbn [timers upd_if]. intros [k v] Hx. apply In_aremove in Hx. tauto.
   Qed.
+
+  (* ---------------------------------------------------------------- what the relation buys *)
+  Lemma filter_nil_forall {A} (f : A -> bool) (l : list A) :
+    length (filter f l) = 0%nat -> forall x, In x l -> f x = false.
+  Proof.
+    induction l as [|y r IH]; cbn; [intros _ x []|].
+    destruct (f y) eqn:E; [discriminate|]. intros H x [<-|Hx]; [exact E|apply IH; assumption].
+  Qed.
+
+  Lemma senders0 s : senders s = 0%nat ->
+    (forall b, In b (handles s) -> b = false) /\
+    (forall c, In c (calls s) -> live_phase (c_phase c) = false).
+  Proof.
+    unfold senders. intro H. split.
+    - apply (filter_nil_forall (fun b => b)). lia.
+    - apply (filter_nil_forall (fun c => live_phase (c_phase c))). lia.
+  Qed.
+
+  Lemma ab_cov m s :
+    sim m s -> RA m s -> cancels s = [] -> terminal s = None -> dropped s = false ->
+    abandoned_covered m = true.
+  Proof.
+    intros [C W D] R Hc Ht Hd. unfold abandoned_covered.
+    apply forallb_forall. intros i Hi. apply forallb_forall. intros sr Hsr.
+    unfold sent_for in Hsr. destruct (id_of m i) as [id|] eqn:Eid; [|destruct Hsr].
+    apply filter_In in Hsr. destruct Hsr as [Hsr He]. apply N.eqb_eq in He.
+    destruct (id_of_bound m i id (sc_nowrap _ _ C) Eid) as [Hpol _].
+    pose proof (sc_range_a _ _ C i Hi) as Hlt. rewrite (sc_len _ _ C) in Hlt.
+    destruct (nth_error (calls s) i) as [c|] eqn:Ec; [|apply nth_error_None in Ec; lia].
+    pose proof (sc_phase _ _ C i c Ec) as Dc.
+    assert (Hp : c_phase c = PGone).
+    { pose proof (d_aband _ _ _ Dc) as H. apply mem_nat_In in Hi. rewrite Hi in H.
+      destruct (c_phase c); try discriminate. reflexivity. }
+    pose proof (sc_id _ _ C i c Ec Hpol) as Hid. rewrite Eid in Hid. injection Hid as Hid.
+    destruct (ra_ie _ _ R sr Hsr) as [H|[H|[H|[H|H]]]].
+    - exfalso. rewrite He, Hid in H. destruct (ra_ac _ _ R i c Ec Hp Hpol H) as [H'|H']; [|congruence].
+      rewrite Hc in H'. exact H'.
+    - rewrite H. reflexivity.
+    - rewrite H. apply orb_true_r.
+    - congruence.
+    - congruence.
+  Qed.
+
+  Lemma close_v10 maxif m s r :
+    sim m s -> RA m s -> senders s = 0%nat -> cancels s = [] -> terminal s = None -> dropped s = false ->
+    v10 (chk_call maxif m (CClose r)) = true.
+  Proof.
+    intros S R Hs Hc Ht Hd. cbn [chk_call v10]. destruct (senders0 s Hs) as [Hh Hl].
+    rewrite (ab_cov m s S R Hc Ht Hd), andb_true_r. destruct S as [C W D].
+    apply andb_true_iff. split.
+    - rewrite (sc_handles _ _ C). apply forallb_forall. intros b Hb. rewrite (Hh b Hb). reflexivity.
+    - apply forallb_forall. intros i Hi. apply in_seq in Hi. rewrite (sc_len _ _ C) in Hi.
+      destruct (nth_error (calls s) i) as [c|] eqn:Ec; [|apply nth_error_None in Ec; lia].
+      pose proof (sc_phase _ _ C i c Ec) as Dc. pose proof (Hl c (nth_error_In _ _ Ec)) as Hlive.
+      rewrite (d_done _ _ _ Dc), (d_aband _ _ _ Dc). destruct (c_phase c); try discriminate; reflexivity.
+  Qed.
 End RA.
+
+(* ================================================================== ops outside the dispatch *)
+Section OpFrames.
+  Context {T : Type}.
+  Notation cstate := (@cstate T).
+  Implicit Types (s : cstate) (m : mst).
+
+  (* call tables that agree except at index i, up to changes between live phases *)
+  Definition lok (l l' : list call) (i : nat) : Prop :=
+    forall j c', j <> i -> nth_error l' j = Some c' ->
+      exists c, nth_error l j = Some c /\ c_id c' = c_id c /\
+                (c_phase c' = c_phase c \/ (livep (c_phase c) = true /\ livep (c_phase c') = true)).
+
+  Lemma lok_refl l i : lok l l i.
+  Proof. intros j c' _ H. exists c'. auto. Qed.
+  Lemma lok_trans l1 l2 l3 i : lok l1 l2 i -> lok l2 l3 i -> lok l1 l3 i.
+  Proof.
+    intros H1 H2 j c3 Hn H. destruct (H2 j c3 Hn H) as (c2 & Hc2 & E2 & P2).
+    destruct (H1 j c2 Hn Hc2) as (c1 & Hc1 & E1 & P1). exists c1. split; [exact Hc1|]. split; [congruence|].
+    destruct P2 as [P2|[P2 P2']]; destruct P1 as [P1|[P1 P1']].
+    - left; congruence.
+    - right. rewrite P2. auto.
+    - right. rewrite <- P1. auto.
+    - right. auto.
+  Qed.
+  Lemma lok_phase_self l i p : lok l (phase_calls l i p) i.
+  Proof.
+    intros j c' Hn H. apply nth_error_phase_calls_inv in H. destruct H as [[-> _]|[_ H]]; [congruence|].
+    exists c'. auto.
+  Qed.
+  Lemma lok_phase_live l w p c i :
+    nth_error l w = Some c -> livep (c_phase c) = true -> livep p = true -> lok l (phase_calls l w p) i.
+  Proof.
+    intros Hc Hl Hp j c' Hn H. apply nth_error_phase_calls_inv in H.
+    destruct H as [[-> (c0 & Hc0 & ->)]|[_ H]]; [|exists c'; auto].
+    exists c0. split; [exact Hc0|]. split; [reflexivity|]. right.
+    assert (c0 = c) by congruence. subst. auto.
+  Qed.
+  Lemma lok_set_nth l i c : lok l (set_nth i c l) i.
+  Proof.
+    intros j c' Hn H. rewrite nth_error_set_nth_other in H by congruence. exists c'. auto.
+  Qed.
+  Lemma lok_app l c i : i = length l -> lok l (l ++ [c]) i.
+  Proof.
+    intros -> j c' Hn H. apply nth_error_app_inv in H. destruct H as [[H _]|[H _]]; [|congruence].
+    exists c'. auto.
+  Qed.
+
+  Definition rxc s (id : N) : Prop := sl_rx_closed (slotv (slots s) id) = true.
+
+  (* what an op on call i leaves alone *)
+  Record OpFr s s' (i : nat) : Prop := {
+    of_calls : lok (calls s) (calls s') i;
+    of_cancels : forall id, In id (cancels s) -> In id (cancels s');
+    of_inflight : inflight s' = inflight s;
+    of_timers : timers s' = timers s;
+    of_terminal : terminal s' = terminal s;
+    of_dropped : dropped s' = dropped s;
+    of_next : next_id s <= next_id s';
+    of_rxc : forall id, id < next_id s -> rxc s id -> rxc s' id }.
+
+  Lemma OpFr_refl s i : OpFr s s i.
+  Proof. constructor; try reflexivity; try tauto; try lia; apply lok_refl. Qed.
+  Lemma OpFr_trans s1 s2 s3 i : OpFr s1 s2 i -> OpFr s2 s3 i -> OpFr s1 s3 i.
+  Proof.
+    intros [] []. constructor; try congruence.
+    - eapply lok_trans; eassumption.
+    - auto.
+    - lia.
+    - intros id Hlt H. apply of_rxc1; [lia|]. apply of_rxc0; assumption.
+  Qed.
+
+  Lemma OpFr_set_phase s i p : OpFr s (set_phase s i p) i.
+  Proof.
+    rewrite set_phase_alt. constructor; try reflexivity; try tauto; try lia; apply lok_phase_self.
+  Qed.
+  Lemma OpFr_set_phase_live s w p c i :
+    nth_error (calls s) w = Some c -> livep (c_phase c) = true -> livep p = true ->
+    OpFr s (set_phase s w p) i.
+  Proof.
+    intros Hc Hl Hp. rewrite set_phase_alt. constructor; try reflexivity; try tauto; try lia.
+    eapply lok_phase_live; eassumption.
+  Qed.
+  Lemma OpFr_upd_q s a b c d i : OpFr s (upd_q s a b c d) i.
+  Proof. constructor; try reflexivity; try tauto; try lia; apply lok_refl. Qed.
+  Lemma OpFr_push_cancel s id i : OpFr s (push_cancel s id) i.
+  Proof.
+    rewrite push_cancel_alt. constructor; try reflexivity; try tauto; try lia; [apply lok_refl|].
+    cbn [cancels upd_cancels]. intros id' H. destruct (dropped s); [exact H|apply in_or_app; left; exact H].
+  Qed.
+  Lemma OpFr_slot_tx_drop s id i : OpFr s (slot_tx_drop s id) i.
+  Proof.
+    constructor; try reflexivity; try tauto; try lia; [apply lok_refl|].
+    intros id' _. apply rxc_slot_tx_drop.
+  Qed.
+  Lemma OpFr_slot_rx_close s id i : OpFr s (slot_rx_close s id) i.
+  Proof.
+    constructor; try reflexivity; try tauto; try lia; [apply lok_refl|].
+    intros id' _. apply rxc_slot_rx_close.
+  Qed.
+  Lemma OpFr_release_permit s i : winv s -> OpFr s (release_permit s) i.
+  Proof.
+    intros [Wa _]. unfold release_permit. destruct (waiters s) as [|w r] eqn:Ew; [apply OpFr_upd_q|].
+    destruct (Wa w) as (c & Hc & Hp); [first [left; reflexivity|rewrite Ew; left; reflexivity]|].
+    eapply OpFr_trans; [apply OpFr_upd_q|]. eapply (OpFr_set_phase_live _ w PAssigned c); [exact Hc|rewrite Hp|]; reflexivity.
+  Qed.
+  Lemma OpFr_fail_shutdown s i id : OpFr s (snd (fail_shutdown s i id)) i.
+  Proof.
+    unfold fail_shutdown. cbn [snd].
+    eapply OpFr_trans; [apply OpFr_slot_tx_drop|]. eapply OpFr_trans; [apply OpFr_slot_rx_close|].
+    eapply OpFr_trans; [apply OpFr_push_cancel|apply OpFr_set_phase].
+  Qed.
+  Lemma OpFr_poll_slot s i id : OpFr s (snd (poll_slot s i id)) i.
+  Proof.
+    unfold poll_slot. destruct (sl_val _); cbn [snd].
+    - eapply OpFr_trans; [apply OpFr_slot_rx_close|apply OpFr_set_phase].
+    - destruct (sl_tx_gone _); cbn [snd]; [|apply OpFr_refl].
+      eapply OpFr_trans; [apply OpFr_slot_rx_close|apply OpFr_set_phase].
+  Qed.
+  Lemma OpFr_enqueue s i c id tc : OpFr s (snd (enqueue s i c id tc)) i.
+  Proof.
+    unfold enqueue. eapply OpFr_trans; [apply OpFr_upd_q|].
+    eapply OpFr_trans; [apply OpFr_set_phase|apply OpFr_poll_slot].
+  Qed.
+
+  Lemma OpFr_assign s i c :
+    next_id s + 1 < two64 ->
+    OpFr s (set_slot (with_id (upd_misc s (N.modulo (next_id s + 1) 18446744073709551616) (handles s) (now s))
+                              i c (next_id s)) (next_id s) slot0) i.
+  Proof.
+    intro Hw. unfold with_id, set_slot. constructor;
+      cbn [calls cancels inflight timers terminal dropped next_id slots upd_slots upd_calls upd_misc];
+      try reflexivity; try tauto.
+    - apply lok_set_nth.
+    - rewrite N.mod_small by exact Hw. lia.
+    - intros id Hlt H. unfold rxc. cbn [slots upd_slots]. rewrite slotv_aset.
+      destruct (N.eqb id (next_id s)) eqn:E; [apply N.eqb_eq in E; lia|exact H].
+  Qed.
+
+  Lemma OpFr_release_permit' s i :
+    (forall w, In w (waiters s) -> exists c, nth_error (calls s) w = Some c /\ livep (c_phase c) = true) ->
+    OpFr s (release_permit s) i.
+  Proof.
+    intros Wa. unfold release_permit. destruct (waiters s) as [|w r] eqn:Ew; [apply OpFr_upd_q|].
+    destruct (Wa w) as (c & Hc & Hp); [first [left; reflexivity|rewrite Ew; left; reflexivity]|].
+    eapply OpFr_trans; [apply OpFr_upd_q|]. eapply (OpFr_set_phase_live _ w PAssigned c); [exact Hc|exact Hp|reflexivity].
+  Qed.
+
+  Lemma OpFr_poll_call s i : next_id s + 1 < two64 -> OpFr s (snd (poll_call s i)) i.
+  Proof.
+    intro Hw. unfold poll_call. destruct (nth_error (calls s) i) as [c|]; [|apply OpFr_refl].
+    destruct (c_phase c); try apply OpFr_refl.
+    - set (s1 := set_slot _ _ _).
+      assert (F1 : OpFr s s1 i) by (apply OpFr_assign, Hw).
+      destruct (rx_closed s1).
+      + eapply OpFr_trans; [exact F1|apply OpFr_fail_shutdown].
+      + destruct (permits s1).
+        * cbn [snd]. eapply OpFr_trans; [exact F1|].
+          eapply OpFr_trans; [apply OpFr_upd_q|apply OpFr_set_phase].
+        * eapply OpFr_trans; [exact F1|].
+          eapply OpFr_trans; [apply OpFr_upd_q|apply OpFr_enqueue].
+    - destruct (rx_closed s).
+      + eapply OpFr_trans; [apply OpFr_upd_q|apply OpFr_fail_shutdown].
+      + apply OpFr_enqueue.
+    - apply OpFr_fail_shutdown.
+    - apply OpFr_poll_slot.
+  Qed.
+
+  Lemma OpFr_guard_close s i : winv s -> OpFr s (guard_close s i) i.
+  Proof.
+    intros W. unfold guard_close. destruct (nth_error (calls s) i) as [c|] eqn:Ec; [|apply OpFr_refl].
+    destruct (c_phase c) eqn:Ep; try apply OpFr_refl.
+    - apply OpFr_set_phase.
+    - eapply OpFr_trans; [apply OpFr_upd_q|].
+      eapply OpFr_trans; [apply OpFr_slot_tx_drop|].
+      eapply OpFr_trans; [apply OpFr_slot_rx_close|apply OpFr_set_phase].
+    - eapply OpFr_trans; [apply OpFr_set_phase|].
+      eapply OpFr_trans; [|eapply OpFr_trans; [apply OpFr_slot_tx_drop|apply OpFr_slot_rx_close]].
+      destruct (rx_closed _); [apply OpFr_upd_q|]. apply OpFr_release_permit'.
+      intros w Hw. rewrite set_phase_alt in Hw |- *. cbn [waiters calls upd_calls] in Hw |- *.
+      destruct (w_acq _ W w Hw) as (cw & Hcw & Hpw).
+      assert (Hn : w <> i) by (intros ->; congruence).
+      exists cw. rewrite nth_error_phase_calls. apply Nat.eqb_neq in Hn. rewrite Nat.eqb_sym, Hn.
+      split; [exact Hcw|rewrite Hpw; reflexivity].
+    - eapply OpFr_trans; [apply OpFr_slot_tx_drop|].
+      eapply OpFr_trans; [apply OpFr_slot_rx_close|apply OpFr_set_phase].
+    - eapply OpFr_trans; [apply OpFr_slot_rx_close|apply OpFr_set_phase].
+  Qed.
+
+  Lemma OpFr_guard_cancel s i : OpFr s (guard_cancel s i) i.
+  Proof.
+    unfold guard_cancel. destruct (nth_error (calls s) i) as [c|]; [|apply OpFr_refl].
+    destruct (c_phase c); try apply OpFr_refl.
+    eapply OpFr_trans; [apply OpFr_push_cancel|apply OpFr_set_phase].
+  Qed.
+
+  (* ---------------------------------------------------------------- the relation across an op on call i *)
+  Definition ARi m s (i : nat) : Prop :=
+    forall c, nth_error (calls s) i = Some c -> In i (m_polled m) ->
+      (c_phase c = PGone -> In (c_id c) (map fst (inflight s)) -> In (c_id c) (cancels s) \/ dropped s = true) /\
+      (c_phase c = PClosing \/ c_phase c = PGone -> rxc s (c_id c)).
+
+  Lemma RA_ARi m s i : RA m s -> ARi m s i.
+  Proof.
+    intros R c Hc Hp. split.
+    - intros Hph Hin. apply (ra_ac _ _ R i c); assumption.
+    - intro Hph. apply (ra_rxc _ _ R i c); assumption.
+  Qed.
+
+  Lemma RA_op_gen m m' s s' i :
+    m_sent m' = m_sent m -> m_cancels m' = m_cancels m -> m_read m' = m_read m -> m_now m' = m_now m ->
+    m_close_called m' = m_close_called m ->
+    (forall j, In j (m_polled m') -> j <> i -> In j (m_polled m)) ->
+    OpFr s s' i ->
+    (forall j c, In j (m_polled m) -> nth_error (calls s) j = Some c -> c_id c < next_id s) ->
+    ARi m' s' i ->
+    (m_close_called m = true -> senders s' = 0%nat /\ queue s' = [] /\ cancels s' = []) ->
+    RA m s -> RA m' s'.
+  Proof.
+    intros M1 M2 M3 M4 M5 Hpol F Hlt Hi Hcc R. destruct F.
+    assert (Hc : forall id, cancelled m' id = cancelled m id) by (intro; unfold cancelled; rewrite M2; reflexivity).
+    assert (He : forall sr, ended m' sr = ended m sr)
+      by (intro; unfold ended, read_any_after; rewrite M3, M4; reflexivity).
+    constructor; rewrite ?M1, ?M5, ?of_inflight0, ?of_timers0, ?of_terminal0, ?of_dropped0.
+    - intros sr Hsr. rewrite Hc, He. apply (ra_ie _ _ R), Hsr.
+    - intros j c' Hc' Hp Hpj Hin. destruct (Nat.eq_dec j i) as [->|Hn].
+      + rewrite <- of_inflight0 in Hin. rewrite <- of_dropped0. apply (Hi c' Hc' Hpj); assumption.
+      + destruct (of_calls0 j c' Hn Hc') as (c & Hc0 & Eid & Pp).
+        assert (Hp0 : c_phase c = PGone).
+        { destruct Pp as [Pp|[_ Pp]]; [congruence|rewrite Hp in Pp; discriminate]. }
+        rewrite Eid in *. destruct (ra_ac _ _ R j c Hc0 Hp0 (Hpol j Hpj Hn) Hin) as [H|H]; [|tauto].
+        left. apply of_cancels0, H.
+    - intros j c' Hc' Hp Hpj. destruct (Nat.eq_dec j i) as [->|Hn].
+      + apply (Hi c' Hc' Hpj); assumption.
+      + destruct (of_calls0 j c' Hn Hc') as (c & Hc0 & Eid & Pp).
+        rewrite Eid. apply of_rxc0; [apply (Hlt j c (Hpol j Hpj Hn) Hc0)|].
+        apply (ra_rxc _ _ R j c Hc0); [|apply Hpol; assumption].
+        destruct Pp as [Pp|[_ Pp]]; [rewrite <- Pp; exact Hp|].
+        destruct Hp as [Hp|Hp]; rewrite Hp in Pp; discriminate.
+    - apply (ra_ti _ _ R).
+    - exact Hcc.
+  Qed.
+End OpFrames.
+
+(* ================================================================== a running dispatch poll *)
+Section Run.
+  Context {T : Type} (tp : transport T cmsg resp) (maxif : nat) (mb : mst).
+  Notation cstate := (@cstate T).
+  Implicit Types (s : cstate).
+
+  (* what a micro-step appends to the log, and in which situation *)
+  Lemma mstep_entry e s s' : mstep tp e s s' ->
+    (plog s' = plog s /\ fused s' = fused s) \/
+    (exists c, plog s' = plog s ++ [c] /\ (fused s' = fused s \/ c = CNext REof) /\
+       match c with
+       | CSend (MReq _ _ _ _) _ => queue s <> []
+       | CSend (MCancel _ _) _ => cancels s <> []
+       | CClose _ => senders s = 0%nat /\ cancels s = []
+       | _ => True
+       end).
+  Proof.
+    intro H. destruct H.
+    - right. exists (CReady r). apply do_ready_eq in H. rewrite H. split; [reflexivity|]. split; [left; reflexivity|exact I].
+    - right. exists (CFlush r). apply do_flush_eq in H. rewrite H. split; [reflexivity|]. split; [left; reflexivity|exact I].
+    - right. exists (CClose r). apply do_close_eq in H3. rewrite H3. split; [reflexivity|]. split; [left; reflexivity|auto].
+    - right. exists (CNext (RItem x)). apply do_next_eq in H. destruct H as [(_ & [=] & _)|(Hf & H)].
+      rewrite plog_complete, (fused_T _ _ (TFrame_complete s1 x)), H. cbn [plog fused upd_tr].
+      split; [reflexivity|]. split; [left; congruence|exact I].
+    - apply do_next_eq in H. destruct H as [(_ & -> & ->)|(Hf & H)]; [left; split; reflexivity|].
+      right. exists (CNext r). rewrite H. cbn [plog fused upd_tr]. split; [reflexivity|]. split; [|exact I].
+      destruct r; try (left; congruence). right; reflexivity.
+    - left. pose proof (IFrame_q_poll_recv s) as F. rewrite H in F. cbn [snd] in F.
+      pose proof (TFrame_I _ _ (TFrame_slot_tx_drop s1 (q_id q))) as F2.
+      split; [rewrite (if_plog _ _ F2); apply F|rewrite (if_fused _ _ F2); apply F].
+    - right. exists (req_call q w). pose proof (IFrame_q_poll_recv s) as F. rewrite H in F. cbn [snd] in F.
+      apply do_send_eq in H1.
+      assert (E : plog s3 = plog s ++ [req_call q w] /\ fused s3 = fused s).
+      { rewrite H1. cbn [plog fused upd_tr insert_request upd_if]. rewrite (if_plog _ _ F), (if_fused _ _ F).
+        split; reflexivity. }
+      destruct E as [E1 E2].
+      assert (Q : queue s <> []).
+      { revert H. unfold q_poll_recv. destruct (queue s); [|discriminate].
+        destruct (Nat.eqb _ _); [discriminate|]. destruct (_ && _); discriminate. }
+      destruct w; (split; [|split; [left|exact Q]]).
+      + exact E1.
+      + exact E2.
+      + rewrite plog_complete_request. exact E1.
+      + rewrite (fused_T _ _ (TFrame_complete_request s3 (q_id q) OSendErr)). exact E2.
+    - left. pose proof (IFrame_c_poll_recv s) as F. rewrite H in F. cbn [snd] in F.
+      pose proof (TFrame_cancel_request s1 id) as F2. rewrite H0 in F2. cbn [snd] in F2. apply TFrame_I in F2.
+      split; [rewrite (if_plog _ _ F2); apply F|rewrite (if_fused _ _ F2); apply F].
+    - right. exists (CSend (MCancel id (if_tc e)) w).
+      pose proof (IFrame_c_poll_recv s) as F. rewrite H in F. cbn [snd] in F.
+      pose proof (TFrame_cancel_request s1 id) as F2. rewrite H0 in F2. cbn [snd] in F2. apply TFrame_I in F2.
+      apply do_send_eq in H1. rewrite H1. cbn [plog fused upd_tr].
+      rewrite (if_plog _ _ F2), (if_plog _ _ F), (if_fused _ _ F2), (if_fused _ _ F).
+      split; [reflexivity|]. split; [left; reflexivity|].
+      revert H. unfold c_poll_recv. destruct (cancels s); [|discriminate]. destruct (Nat.eqb _ _); discriminate.
+    - left. pose proof (TFrame_poll_expired s) as F. rewrite H in F. apply TFrame_I in F.
+      split; apply F.
+  Qed.
+
+  Record DRun s : Prop := {
+    dr_sim : dsim maxif mb s;
+    dr_ra : RA (cur mb s) s;
+    dr_v10 : v10 (fst (chk_calls maxif mb (plog s))) = true;
+    dr_j : fused s = true -> In (CNext REof) (plog s);
+    dr_t : terminal s = None;
+    dr_d : dropped s = false }.
+
+  Lemma DRun_mstep e s s' : mstep tp e s s' -> DRun s -> DRun s'.
+  Proof.
+    intros H [D R V J Ht Hd]. pose proof (mstep_PFrame tp _ _ _ H) as PF.
+    pose proof (dsim_mstep tp maxif mb _ _ _ H D) as D'.
+    assert (R' : RA (cur mb s') s').
+    { destruct (mstep_entry _ _ _ H) as [[E _]|(c & E & _)].
+      - unfold cur. rewrite E. rewrite <- (app_nil_r (plog s)) in E.
+        pose proof (RA_mstep tp (cur mb s) _ _ _ H (ds_sim _ _ _ D) R [] E) as K. exact K.
+      - unfold cur. rewrite E, mrun_app.
+        exact (RA_mstep tp (cur mb s) _ _ _ H (ds_sim _ _ _ D) R [c] E). }
+    constructor; try assumption.
+    - destruct (mstep_entry _ _ _ H) as [[E _]|(c & E & _ & K)]; [rewrite E; exact V|].
+      rewrite E, chk_calls_snoc. cbn [vand v10]. rewrite V. cbn [andb]. fold (cur mb s).
+      destruct c as [x|[id dl tc b|id tc] x|x|x|x]; try reflexivity.
+      + cbn [chk_call v10]. apply negb_true_iff. destruct (m_close_called (cur mb s)) eqn:Ec; [|reflexivity].
+        exfalso. apply K. apply (ra_cc _ _ R Ec).
+      + cbn [chk_call v10]. apply negb_true_iff. destruct (m_close_called (cur mb s)) eqn:Ec; [|reflexivity].
+        exfalso. apply K. apply (ra_cc _ _ R Ec).
+      + destruct K as [K1 K2]. apply (close_v10 maxif (cur mb s) s x (ds_sim _ _ _ D) R K1 K2 Ht Hd).
+    - intro Hf. destruct (mstep_entry _ _ _ H) as [[E Ef]|(c & E & [Ef| ->] & _)].
+      + rewrite E. apply J. congruence.
+      + rewrite E. apply in_or_app. left. apply J. congruence.
+      + rewrite E. apply in_or_app. right; left; reflexivity.
+    - rewrite (pf_terminal _ _ PF). exact Ht.
+    - rewrite (pf_dropped _ _ PF). exact Hd.
+  Qed.
+
+  Lemma DRun_msteps e s s' : msteps tp e s s' -> DRun s -> DRun s'.
+  Proof.
+    induction 1 as [s|a s s' H|e s s1 s2 H1 H2 IH]; intro D; [exact D|eapply DRun_mstep; eassumption|].
+    apply IH. eapply DRun_mstep; eassumption.
+  Qed.
+
+  Definition end_mark (c : tcall cmsg resp) : bool :=
+    match c with CNext REof | CClose TOk => true | _ => false end.
+
+  Lemma plog_grows_msteps e s s' : msteps tp e s s' -> exists seg, plog s' = plog s ++ seg.
+  Proof. intro H. destruct (msteps_log tp _ _ _ H) as (seg & E & _). exists seg. exact E. Qed.
+
+  Lemma pump_read_none s s1 : pump_read tp s = (PNone, s1) -> fused s1 = true.
+  Proof.
+    intro H. apply pump_read_inv in H. destruct H as (x & sx & Hn & Hr & ->).
+    destruct x; try discriminate. apply do_next_eq in Hn.
+    destruct Hn as [(Hf & _ & ->)|(_ & ->)]; [exact Hf|reflexivity].
+  Qed.
+
+  Lemma pump_read_fused s rd s1 :
+    pump_read tp s = (rd, s1) -> rd = PSome tt \/ rd = PPend -> fused s = false -> fused s1 = false.
+  Proof.
+    intros H Hr Hf. apply pump_read_inv in H. destruct H as (x & sx & Hn & -> & ->).
+    apply do_next_eq in Hn. destruct Hn as [(Hf' & _)|(_ & ->)]; [congruence|].
+    destruct x; cbn [read_res] in Hr; try (destruct Hr; discriminate).
+    - rewrite (fused_T _ _ (TFrame_complete _ _)). reflexivity.
+    - reflexivity.
+  Qed.
+
+  Lemma pump_write_none s s' : pump_write tp s = (PNone, s') -> exists l, plog s' = l ++ [CClose TOk].
+  Proof.
+    intro H. apply pump_write_inv in H. inversion H as [| | | | |sa sb sc c sd H1 H2 H3 H4 Hc|r1 sa r2 sb sc f sd H1 I1 H2 I2 Hp H3 H4 Hf]; subst.
+    - destruct c; try discriminate. apply do_close_eq in H4. rewrite H4. eexists; reflexivity.
+    - destruct f; discriminate.
+  Qed.
+
+  Lemma run_loop_ok_log f : forall s s', run_loop tp f s = (RunOk, s') -> DRun s ->
+    existsb end_mark (plog s') = true.
+  Proof.
+    induction f as [|f IH]; intros s s' H D; [discriminate|].
+    apply run_loop_inv in H.
+    inversion H as [| |s1 wr s2 H1 H2 Hw|rd s1 s2 H1 Hr H2 Hl| |rd s1 wr s2 r0 s3 H1 H2 Hc H3]; subst.
+    - pose proof (pump_read_none _ _ H1) as Hf.
+      pose proof (DRun_msteps _ _ _ (pump_read_msteps tp _ _ _ H1) D) as D1.
+      pose proof (dr_j _ D1 Hf) as Hin.
+      destruct (plog_grows_msteps _ _ _ (pump_write_msteps tp _ _ _ H2)) as (seg & E).
+      apply existsb_exists. exists (CNext REof). split; [rewrite E; apply in_or_app; left; exact Hin|reflexivity].
+    - destruct (pump_write_none _ _ H2) as (l & E). rewrite E, existsb_app. cbn. apply orb_true_r.
+    - apply (IH s2 s' H3).
+      apply (DRun_msteps _ _ _ (pump_write_msteps tp _ _ _ H2)).
+      apply (DRun_msteps _ _ _ (pump_read_msteps tp _ _ _ H1)). exact D.
+  Qed.
+
+  Lemma run_loop_fused f : forall s r s', run_loop tp f s = (r, s') -> fused s = false ->
+    r = RunPending \/ r = RunFuel -> fused s' = false.
+  Proof.
+    induction f as [|f IH]; intros s r s' H Hf Hr; [injection H as _ <-; exact Hf|].
+    apply run_loop_inv in H.
+    inversion H as [| | | |s1 wr s2 H1 H2 Hw|rd s1 wr s2 r0 s3 H1 H2 Hc H3]; subst;
+      try (destruct Hr; discriminate).
+    - rewrite (fused_pump_write tp _ _ _ H2). apply (pump_read_fused _ _ _ H1); [right; reflexivity|exact Hf].
+    - apply (IH s2 r s' H3); [|exact Hr].
+      rewrite (fused_pump_write tp _ _ _ H2). apply (pump_read_fused _ _ _ H1); [|exact Hf].
+      destruct Hc as [[-> _]|[-> _]]; auto.
+  Qed.
+End Run.
